@@ -27,7 +27,7 @@ def _pat(mul, add, start, n):
 LATENCY = 0.02                     # one-way delay of every byte (virtual seconds)
 
 
-def _add_latency(w, loop, latency: float = LATENCY):
+def _add_latency(w, loop, lat: dict):
     """Bytes written on `w` reach the other reader `latency` later, in order; close / reset flush what is
     in flight first. (With zero delay a reply can overtake the coroutine that is about to wait for it —
     an artefact no real network shows.)"""
@@ -42,7 +42,7 @@ def _add_latency(w, loop, latency: float = LATENCY):
     def deliver(data):
         if data:
             q.append(bytes(data))
-            loop.call_later(latency, pump)
+            loop.call_later(lat['v'], pump)
 
     def flush():
         while q:
@@ -56,6 +56,7 @@ def _add_latency(w, loop, latency: float = LATENCY):
         flush()
         orig_reset()
     w._deliver, w.close, w.reset = deliver, close, reset
+    w.flush_in_flight = flush
 
 
 class _Server:
@@ -131,9 +132,27 @@ async def _pair_main(loop, case: dict, tmp: str):
 
         def make_pair(remote_addr):
             a_reader, a_writer, b_reader, b_writer = real_make_pair(remote_addr)
-            _add_latency(a_writer, loop)
-            _add_latency(b_writer, loop)
+            lat = {'v': LATENCY}
+            _add_latency(a_writer, loop, lat)
+            _add_latency(b_writer, loop, lat)
             seen = {'init': False}
+
+            def half_visible_reset():
+                """the uploader's end fails at once; the downloader's end learns of it `rst_delay` later (or never
+                before its own read time-out) — so PeerUploadFailed may arrive before or after the break is seen"""
+                a_writer.flush_in_flight()
+                if a_writer._closed:
+                    return
+                a_writer._closed = True
+                net.closed_count += 1
+                if a_reader.exception() is None and not a_reader.at_eof():
+                    a_reader.set_exception(ConnectionResetError('scripted reset'))
+
+                def far_end():
+                    if b_reader.exception() is None and not b_reader.at_eof():
+                        b_reader.set_exception(ConnectionResetError('scripted reset (delayed)'))
+                    b_writer._closed = True
+                loop.call_later(case.get('rst_delay', 0.0), far_end)
 
             def on_write_a(data):
                 # first frame of the connecting side: PeerInit(username, typ, ticket)
@@ -145,7 +164,11 @@ async def _pair_main(loop, case: dict, tmp: str):
                     if buf[4] == 1:
                         (ulen,) = struct.unpack('<I', buf[5:9])
                         typ = buf[9 + ulen + 4:9 + ulen + 5].decode()
+                        if typ == 'P':
+                            lat['v'] = case.get('lat_p', LATENCY)
                         if typ == 'F':
+                            lat['v'] = case.get('lat_f', LATENCY)
+                            a_writer.reset = half_visible_reset
                             idx = state['fconn']
                             state['fconn'] += 1
                             if idx < len(cuts):
@@ -272,6 +295,9 @@ def gen_cases(rng: random.Random, n: int) -> list:
         if c['flen'] <= 400:
             lim = rng.choice([(0, 0), (0, 0), (1, 0), (0, 1), (500, 500)])
         c.update({'kind': 'pair', 'mul': rng.choice([1, 3, 7]), 'add': rng.randint(0, 255),
-                  'lim_up': lim[0], 'lim_down': lim[1], 'gen': 'pair'})
+                  'lim_up': lim[0], 'lim_down': lim[1], 'gen': 'pair',
+                  # delivery orders of the control messages vs. the file connection
+                  'lat_p': rng.choice([0.005, 0.02, 0.02, 0.5, 3.0]), 'lat_f': rng.choice([0.005, 0.02, 0.02, 0.5]),
+                  'rst_delay': rng.choice([0.0, 0.0, 0.01, 1.0, 10.0, 30.0, 400.0])})
         out.append(c)
     return out
